@@ -56,6 +56,7 @@ impl Engine for CorrEngine {
             sweeper: None,
             create_empty_file: false,
             allow_ambiguous: c.chance(1, 4),
+            ring: 0,
         };
         let mut ops = Vec::new();
         for _ in 0..3 + w.below(14) {
